@@ -178,6 +178,102 @@ def enum_tokens():
     return _ENUM_TOKENS
 
 
+_NAME_ENUMS = None
+_NAME_CHARS = frozenset(b'ABCDEFGHIJKLMNOPQRSTUVWXYZabcdefghijklmnopqrstuvwxyz0123456789@._+/-')
+
+
+def name_enums():
+    """token -> tuple of all tokens of the enumerations (of the library and of cryptodatahub) that contain it: the
+    names a peer may put where the input carries one of them (algorithm names, protocol names, keywords)."""
+    global _NAME_ENUMS  # pylint: disable=global-statement
+    if _NAME_ENUMS is None:
+        import enum
+        import sys
+        table = {}
+        for name in sorted(sys.modules):
+            if not name.startswith(('cryptoparser.', 'cryptodatahub.')):
+                continue
+            module = sys.modules[name]
+            for attr_name in sorted(vars(module)):
+                obj = vars(module)[attr_name]
+                if not (isinstance(obj, type) and issubclass(obj, enum.Enum) and obj.__module__ == name):
+                    continue
+                tokens = []
+                for member in obj:
+                    code = getattr(member.value, 'code', None)
+                    if isinstance(code, str) and 2 <= len(code) <= 64:
+                        try:
+                            token = code.encode('ascii')
+                        except UnicodeError:
+                            continue
+                        if all(byte in _NAME_CHARS for byte in token) and token not in tokens:
+                            tokens.append(token)
+                if len(tokens) >= 2:
+                    group = tuple(tokens)
+                    for token in tokens:
+                        table.setdefault(token, [])
+                        table[token].append(group)
+        _NAME_ENUMS = {token: tuple(sorted({other for group in groups for other in group}))
+                       for token, groups in table.items()}
+    return _NAME_ENUMS
+
+
+def name_occurrences(data, limit=64):
+    """[(start, end, candidates)] for every whole word of the input that is a known name."""
+    table = name_enums()
+    out = []
+    n = len(data)
+    i = 0
+    while i < n and len(out) < limit:
+        if data[i] in _NAME_CHARS and (i == 0 or data[i - 1] not in _NAME_CHARS):
+            j = i
+            while j < n and data[j] in _NAME_CHARS:
+                j += 1
+            word = bytes(data[i:j])
+            if 2 <= len(word) <= 64 and word in table:
+                out.append((i, j, table[word]))
+            i = j
+        else:
+            i += 1
+    return out
+
+
+def substitute_name(data, start, end, new):
+    """data with data[start:end] replaced by `new`, and the length fields that cover it adjusted: the prefix of the
+    (comma separated) string the name stands in (1, 2 or 4 octets), and every 2-, 3- or 4-octet big-endian field
+    before it whose declared region reaches at least to the end of the name and stays inside the input."""
+    delta = len(new) - (end - start)
+    out = bytearray(data)
+    if delta:
+        list_start = start
+        while list_start > 0 and (out[list_start - 1] in _NAME_CHARS or out[list_start - 1] == 0x2c):
+            list_start -= 1
+        list_end = end
+        while list_end < len(out) and (out[list_end] in _NAME_CHARS or out[list_end] == 0x2c):
+            list_end += 1
+        fixed = set()
+        for size in (4, 2, 1):
+            at = list_start - size
+            if at >= 0 and int.from_bytes(out[at:at + size], 'big') == list_end - list_start:
+                value = list_end - list_start + delta
+                if 0 <= value < (1 << (8 * size)):
+                    out[at:at + size] = value.to_bytes(size, 'big')
+                    fixed.update(range(at, at + size))
+                    list_start = at
+                break
+        for size in (4, 3, 2):
+            for at in range(0, list_start - size + 1):
+                if fixed.intersection(range(at, at + size)):
+                    continue
+                value = int.from_bytes(out[at:at + size], 'big')
+                if value and end <= at + size + value <= len(data) and 0 <= value + delta < (1 << (8 * size)):
+                    if size == 4 or out[at] == 0 or value > 255:
+                        out[at:at + size] = (value + delta).to_bytes(size, 'big')
+                        fixed.update(range(at, at + size))
+    out[start:end] = new
+    return bytes(out)
+
+
 def is_text(data):
     return bool(data) and sum(1 for byte in data if 0x20 <= byte < 0x7f or byte in (0x0d, 0x0a, 0x09)) >= len(data) * 0.95
 
@@ -223,6 +319,22 @@ TYPED_PATTERNS = (
      (b'1.2.3', b'256.1.1.1', b'1.2.3.4/33', b'::1', b'1.2.3.4/-1', b'1.2.3.4.5', b'')),
     ('base64', _re.compile(rb'[A-Za-z0-9+/]{12,}={0,2}'), (b'A', b'AAAA', b'====', b'A===', b'!!!!', b'AAAAA')),
 )
+
+
+_DATE_ZONES = (b'+0100', b'-0800', b'EST', b'+0530', b'UTC', b'-0000', b'-0330', b'+1400', b'-1200', b'PDT', b'+0000', b'Z')
+_ZONED_DATE = _re.compile(rb'([A-Z][a-z]{2}, \d{1,2}[ -][A-Z][a-z]{2}[ -]\d{2,4} \d{2}:\d{2}:\d{2}) (GMT|UTC|[A-Z]{1,4}|[+-]\d{4})')
+
+
+def date_zone_variants(data, limit=6):
+    """The same text with the zone designator of one date replaced by another (numeric offsets and zone names a
+    peer may legitimately send): inputs in which a date-time value carries a non-zero UTC offset."""
+    out = []
+    for match in _ZONED_DATE.finditer(data):
+        for zone in _DATE_ZONES:
+            if zone != match.group(2):
+                out.append(data[:match.start(2)] + zone + data[match.end(2):])
+        break
+    return out[:limit]
 
 
 def typed_faults(rng, data):
